@@ -285,6 +285,9 @@ def run(case, drv):
         r_hits, r_holds, r_extras = [], [], []
     others_ok = (type(res) is type(m)) and set(res.objs.keys()) == set(m.objs.keys()) and all(
         res.objs[k].df.equals(snapshot[k]) for k in snapshot)
+    # a "hit" that carries a length is not a hit: the hit list must still be a list of hits
+    if bad is None and "length" in res.hits.df.columns:
+        bad = "hits list has a length column (its members are holds)"
     tol = tolerance(case, inp)
     out_new = r_hits + r_holds              # what full_ln produced
     out_all = r_extras + out_new            # every note of the result
